@@ -35,14 +35,14 @@ ASSUMPTIONS = [
     "tf.argmax returns the first maximiser; tf.linalg.inv is the exact inverse up to float32 error bounded through the "
     "conditioning guard (cond(K_S + 1e-6 I) <= %s)" % 60,
     "arg-max steps closer than MARGIN (5e-5 MMDCritic / ProtoDash, 2e-4 ProtoGreedy, objective units) are not compared (counted as skipped / truncated)",
-    "tolerances: weights 2e-3 absolute (float32 inverse, cond <= 60), MMDCritic weights / column means / diag 2e-6, "
+    "tolerances: weights 1e-4 absolute (float32 inverse, cond <= 60; worst error measured 1e-7), MMDCritic weights / column means / diag 2e-6, "
     "local distances 1e-4",
 ]
 EXTRA_COVERAGE = {}
 
 MARGIN = {"mmd": 5e-5, "dash": 5e-5, "greedy": 2e-4}
 CMAX = 60.0
-TOL_W = {"mmd": 2e-6, "dash": 2e-3, "greedy": 2e-3}
+TOL_W = {"mmd": 2e-6, "dash": 1e-4, "greedy": 1e-4}
 TOL_T = 4e-6
 TOL_D = 1e-4
 TOL_K = 2e-6
